@@ -139,7 +139,12 @@ class ServiceAccessPoint(object):
 
     def dequeue(self, miu_size, icv_size):
         with self.llc.lock:
-            for socket in self.sock_list:
+            # A listening socket holds the CC PDU for a connection that
+            # was just accepted. It must leave before any I PDU that the
+            # accepted socket may already have to send, the peer drops
+            # information PDUs until its connect is completed.
+            for socket in sorted(self.sock_list,
+                                 key=lambda socket: not socket.state.LISTEN):
                 send_pdu = socket.dequeue(miu_size, icv_size)
                 if send_pdu:
                     return send_pdu
